@@ -334,7 +334,49 @@ class Report:
                 self.add(o)
             if sides:
                 self.add(ob_sides(name + suffix, p, pre, dedupe=seen_sides))
+        self._crosscheck(name, case, sy, pre, paths)
         return paths
+
+    crosschecks = 0
+    crosscheck_mismatches = 0
+
+    def _crosscheck(self, name, case, sy, pre, paths):
+        """Engine self-check (DESIGN 2.4): for a pseudo-random ~2% of the cases, the symbolic result of
+        a path is evaluated at a random point satisfying precondition + path condition and compared
+        with a native float run of the same closure.  A mismatch means the engine misrepresents
+        Python: ERROR (exit 3), never a verdict about the property."""
+        import zlib
+
+        if (zlib.crc32((name + str(self.seed)).encode()) % 50) != 0:
+            return
+        from .numeval import evalf
+
+        for p in paths[:2]:
+            if p.exc is not None:
+                continue
+            trip = [t for t in _triples4(p.result) if isinstance(t[1], R) and not t[1].is_const]
+            if not trip:
+                continue
+            env = find_witness(R.const(0), R.const(1), list(pre) + list(p.pc), tries=400, seed=zlib.crc32(name.encode()))
+            if not env:
+                continue
+            env.pop("_lhs", None), env.pop("_rhs", None)
+            try:
+                native = {t[0]: t[1] for t in _triples4(case(sy.numeric(env)))}
+            except Exception:  # noqa
+                continue
+            for sub, got, _exp, _o in trip[:5]:
+                if sub not in native:
+                    continue
+                try:
+                    a = evalf(got, env)
+                    b = float(native[sub])
+                except Exception:  # noqa
+                    continue
+                self.crosschecks += 1
+                if not (abs(a - b) <= 1e-7 * max(1.0, abs(a), abs(b)) or (a != a and b != b)):
+                    self.crosscheck_mismatches += 1
+                    self.add(Ob(f"{name}/selfcheck/cpython-crosscheck/{sub}", "selfcheck", ERROR, "eval", 0, f"symbolic result evaluates to {a!r}, native run gives {b!r} at {dict(list(env.items())[:6])}"))
 
     def _native(self, o, name, case, sy, sub, rtol=1e-9):
         """Replay a refuted obligation on the real code with floats at the witness point."""
@@ -502,6 +544,7 @@ def finish(rep: Report, level_if_clean="proof"):
         "known_findings_reproduced": [o.name for _, o in known_hit],
         "bounded_stand_ins": [{"name": o.name, "status": o.status, "detail": o.detail[:200]} for o in bounded],
         "stubs_and_rebindings": rep.stubs,
+        "engine_cpython_crosschecks": {"evaluations": rep.crosschecks + int(rep.extra.get("crosschecks", 0)), "mismatches": rep.crosscheck_mismatches},
         "notes": rep.notes,
     }
     cov.update({k: v for k, v in rep.extra.items() if k != "rule"})
@@ -577,6 +620,7 @@ def _par_call(chunk):
             sub.add(Ob(f"{rep0.pid}/worker/item{i}", "post", UNDECIDED, "engine", 0, f"OutOfReach: {e}"))
         except Exception as e:  # noqa
             sub.add(Ob(f"{rep0.pid}/worker/item{i}", "post", ERROR, "engine", 0, f"{type(e).__name__}: {e}\n{traceback.format_exc()[-1200:]}"))
+    sub.extra["crosschecks"] = sub.extra.get("crosschecks", 0) + sub.crosschecks
     return sub.obs, sub.cases, sub.paths, sub.functions, sub.samples, sub.extra
 
 
